@@ -29,7 +29,7 @@ META = {
     "explanation": "assemble_schur_complement_system + expand_schur_complement_solution on symbolic systems; "
                    "identities (J X - b)[secondary] = 0 and (J X - b)[primary] = S x_p - rhs_S for arbitrary x_p",
     "assumptions": ["floats as exact reals", "secondary diagonal entries non-zero (invertibility)",
-                    "equation system of pv/props/_eqsys.py (14 dofs)"],
+                    "equation system of pv/props/_eqsys.py (14 dofs)", "second system (18 dofs): one primary and two secondary variables on two grids, secondary block a generalised permutation matrix, default inverter"],
     "stubs": ["inverter of the secondary block: exact reciprocal of the diagonal (harness inverter) and the "
               "default inverter with np.linalg.inv as contract stub (A X = I) on the 1x1/2x2 blocks"],
     "outside": ["numerical quality of the inverse", "secondary blocks larger than the ones of this system"],
@@ -52,6 +52,7 @@ def shards(tier, seed):
         out.append({"split": name, "inverter": "diag", "local": True})
         if tier == "thorough" or name.startswith("E1|x"):
             out.append({"split": name, "inverter": "default", "local": True})
+    out.append({"split": "perm", "inverter": "default", "local": True})
     return out
 
 
@@ -178,8 +179,80 @@ def harness(ctx, shard):
                 "S00": str(Sm[0, 0])[:160]})
 
 
+def _system_perm(c):
+    """p (primary), y and z (secondary) on the matrix and the fracture; every secondary equation depends on
+    exactly one secondary variable, but rows are ordered equation-wise and dofs grid-wise: the secondary
+    block is a generalised permutation matrix, not a diagonal one."""
+    import porepy as pp
+
+    mdg = _eqsys.mdg_env()["mdg"]
+    _eqsys.reset_data(mdg)
+    es = pp.ad.EquationSystem(mdg)
+    sds = mdg.subdomains()
+    pvar = es.create_variables("p", subdomains=sds)
+    y = es.create_variables("y", subdomains=sds)
+    z = es.create_variables("z", subdomains=sds)
+    D = lambda k: pp.ad.DenseArray(c[k])  # noqa: E731
+    ep = D("cp") * pvar + y + z * pvar
+    ey = D("ay") * y - pvar * pvar
+    ez = D("bz") * z + pvar
+    for e, nm in ((ep, "Ep"), (ey, "Ey"), (ez, "Ez")):
+        e.set_name(nm)
+        es.set_equation(e, sds, {"cells": 1})
+    return es, pvar, y, z
+
+
+def h_perm(ctx, shard):
+    nd = 6
+    c = {k: ctx.reals(k, nd, -2, 2) for k in ("cp", "ay", "bz")}
+    es, pvar, y, z = _system_perm(c)
+    n = es.num_dofs()
+    x = ctx.reals("s", n, -2, 2)
+    xp = ctx.reals("xp", nd, -4, 4)
+    inputs = {"c": c, "x": x, "xp": xp}
+
+    def case(conc):
+        cc = conc(inputs)
+        return {"shard": shard, "x": np.asarray(cc["x"]).tolist(), "xp": np.asarray(cc["xp"]).tolist(),
+                "c": {k: np.asarray(v).tolist() for k, v in cc["c"].items()}}
+
+    J, b = es.assemble(state=x)
+    idx = {k: list(map(int, v)) for k, v in es.assembled_equation_indices.items()}
+    J, b = dense(J), np.asarray(b, dtype=object)
+    P, S = idx["Ep"], idx["Ey"] + idx["Ez"]
+    pc = [int(i) for i in es.dofs_of([pvar])]
+    for k in ("ay", "bz"):
+        for v in c[k].tolist():
+            ctx.assume(z3.Or(lift(v) >= 0.125, lift(v) <= -0.125))
+    Sm, rhs = es.assemble_schur_complement_system(["Ep"], [pvar], inverter=None, state=x)
+    Sm, rhs = dense(Sm), np.asarray(rhs, dtype=object)
+    ok = Sm.shape == (nd, nd) and rhs.shape == (nd,)
+    ctx.check("reduced-shape", bool(ok), case)
+    if not ok:
+        return
+    X = np.asarray(es.expand_schur_complement_solution(xp), dtype=object)
+    ctx.check("expanded-shape", X.shape == (n,), case)
+    if X.shape != (n,):
+        return
+    for a, col in enumerate(pc):
+        ctx.check("primary-part-is-reduced-solution", lift(X[col]) == lift(xp[a]), case)
+    full_res = [z3.Sum([lift(J[i, j]) * lift(X[j]) for j in range(n)]) - lift(b[i]) for i in range(n)]
+    red_res = [z3.Sum([lift(Sm[a, j]) * lift(xp[j]) for j in range(nd)]) - lift(rhs[a]) for a in range(nd)]
+    for r in S:
+        ctx.check("secondary-rows-solved", full_res[r] == 0, case)
+    for a, r in enumerate(P):
+        ctx.check("primary-rows-equal-reduced-residual", full_res[r] == red_res[a], case)
+    m = ctx.reach("end")
+    if m is not None:
+        ctx.validate_replay("float-run", case, model=m)
+    ctx.sample({"system": "permutation-like secondary block", "inverter": "default"})
+
+
 def run_shard(ex, shard):
     _eqsys.mdg_env()
+    if shard.get("split") == "perm":
+        ex.run(h_perm, label="perm-secondary/default", args=(shard,))
+        return
     ex.run(harness, label=f"{shard['split']}/{shard['inverter']}", args=(shard,))
 
 
@@ -190,7 +263,28 @@ def concrete_run(case):
     raise NotImplementedError
 
 
+def _replay_perm(case):
+    c = {k: np.array(v, dtype=float) for k, v in case["c"].items()}
+    es, pvar, y, z = _system_perm(c)
+    x, xp = np.array(case["x"], dtype=float), np.array(case["xp"], dtype=float)
+    J, b = es.assemble(state=x)
+    idx = {k: list(map(int, v)) for k, v in es.assembled_equation_indices.items()}
+    J = J.toarray()
+    Sm, rhs = es.assemble_schur_complement_system(["Ep"], [pvar], inverter=None, state=x)
+    X = es.expand_schur_complement_solution(xp)
+    res = J @ X - b
+    red = Sm.toarray() @ xp - rhs
+    S = idx["Ey"] + idx["Ez"]
+    if np.abs(res[S]).max() > 1e-8 * (1 + np.abs(b).max()):
+        return True, f"permutation-like secondary block, default inverter: secondary rows not solved by the expanded vector (max residual {np.abs(res[S]).max()})"
+    if np.abs(res[idx["Ep"]] - red).max() > 1e-8 * (1 + np.abs(b).max()):
+        return True, "permutation-like secondary block, default inverter: primary residual differs from the reduced residual"
+    return False, "consistent"
+
+
 def replay_case(case):
+    if case.get("shard", {}).get("split") == "perm":
+        return _replay_perm(case)
     """Solve the reduced system, expand, and compare with the full linear solve."""
     shard = case["shard"]
     coef = {k: np.array(v, dtype=float) for k, v in case["coef"].items()}
